@@ -1,8 +1,9 @@
 #!/bin/bash
-# verify every seed under /tmp/seedout (demo passes clean / fails patched / suite passes patched); results in /tmp/seedout/verify.log
-for d in /tmp/seedout/C*/[0-9]; do
+# verify every seed under $1 (default /tmp/seedout): demo passes clean / fails patched / suite passes patched; results in $1/verify.log
+ROOT=${1:-/tmp/seedout}
+for d in $ROOT/C*/[0-9]; do
   if [ -f $d/patch.diff ] && [ ! -f $d/verify.json ]; then
     /verif/tools/seed.py verify $d > $d/verify.json 2>&1
-    echo "$d $(grep -o '"valid": [a-z]*' $d/verify.json)" >> /tmp/seedout/verify.log
+    echo "$d $(grep -o '"valid": [a-z]*' $d/verify.json)" >> $ROOT/verify.log
   fi
 done
